@@ -17,6 +17,7 @@
 #include <stdio.h> // snprintf
 #include <string>
 #include <type_traits>
+#include <vector>
 
 #include <jsoncons/config/compiler_support.hpp>
 #include <jsoncons/config/jsoncons_config.hpp>
@@ -406,10 +407,11 @@ bool dtoa_fixed(double val, char decimal_point, Result& result, std::false_type)
         return true;
     }
 
-    char buffer[100];
+    // the longest fixed rendering of a double is 309 integer digits, the point and the fraction digits
+    char buffer[400];
     int precision = std::numeric_limits<double>::digits10;
     int length = snprintf(buffer, sizeof(buffer), "%1.*f", precision, val);
-    if (length < 0)
+    if (length < 0 || length >= static_cast<int>(sizeof(buffer)))
     {
         return false;
     }
@@ -423,7 +425,7 @@ bool dtoa_fixed(double val, char decimal_point, Result& result, std::false_type)
     {
         const int precision2 = std::numeric_limits<double>::max_digits10;
         length = snprintf(buffer, sizeof(buffer), "%1.*f", precision2, val);
-        if (length < 0)
+        if (length < 0 || length >= static_cast<int>(sizeof(buffer)))
         {
             return false;
         }
@@ -476,6 +478,33 @@ bool dtoa_general(double v, char decimal_point, Result& result)
     return dtoa_general(v, decimal_point, result, std::integral_constant<bool, std::numeric_limits<double>::is_iec559>());
 }
 
+// Formats val with snprintf and writes the text to result. If the text does not fit the
+// stack buffer (large values in fixed notation, large precisions) it is formatted again
+// into a buffer of the size snprintf asked for.
+template <typename Result>
+bool dump_formatted(const char* format, int precision, double val, char decimal_point, Result& result)
+{
+    char buffer[200];
+    int length = snprintf(buffer, sizeof(buffer), format, precision, val);
+    if (length < 0)
+    {
+        return false;
+    }
+    if (length < static_cast<int>(sizeof(buffer)))
+    {
+        dump_buffer(buffer, static_cast<std::size_t>(length), decimal_point, result);
+        return true;
+    }
+    std::vector<char> big_buffer(static_cast<std::size_t>(length) + 1);
+    int length2 = snprintf(big_buffer.data(), big_buffer.size(), format, precision, val);
+    if (length2 < 0 || static_cast<std::size_t>(length2) >= big_buffer.size())
+    {
+        return false;
+    }
+    dump_buffer(big_buffer.data(), static_cast<std::size_t>(length2), decimal_point, result);
+    return true;
+}
+
 class write_double
 {
 private:
@@ -503,21 +532,16 @@ public:
     {
         std::size_t count = 0;
 
-        char number_buffer[200];
-        int length = 0;
-
         switch (float_format_)
         {
         case float_chars_format::fixed:
             {
                 if (precision_ > 0)
                 {
-                    length = snprintf(number_buffer, sizeof(number_buffer), "%1.*f", precision_, val);
-                    if (length < 0)
+                    if (!dump_formatted("%1.*f", precision_, val, decimal_point_, result))
                     {
                         JSONCONS_THROW(json_runtime_error<std::invalid_argument>("write_double failed."));
                     }
-                    dump_buffer(number_buffer, length, decimal_point_, result);
                 }
                 else
                 {
@@ -532,12 +556,10 @@ public:
             {
                 if (precision_ > 0)
                 {
-                    length = snprintf(number_buffer, sizeof(number_buffer), "%1.*e", precision_, val);
-                    if (length < 0)
+                    if (!dump_formatted("%1.*e", precision_, val, decimal_point_, result))
                     {
                         JSONCONS_THROW(json_runtime_error<std::invalid_argument>("write_double failed."));
                     }
-                    dump_buffer(number_buffer, length, decimal_point_, result);
                 }
                 else
                 {
@@ -552,12 +574,10 @@ public:
             {
                 if (precision_ > 0)
                 {
-                    length = snprintf(number_buffer, sizeof(number_buffer), "%1.*g", precision_, val);
-                    if (length < 0)
+                    if (!dump_formatted("%1.*g", precision_, val, decimal_point_, result))
                     {
                         JSONCONS_THROW(json_runtime_error<std::invalid_argument>("write_double failed."));
                     }
-                    dump_buffer(number_buffer, length, decimal_point_, result);
                 }
                 else
                 {
